@@ -8,6 +8,58 @@ class Unsupported(Exception):
     """Construct outside the closed subset the engine interprets (=> analysis broken)."""
 
 
+class Cells(dict):
+    """dict of cells that maintains an order-independent hash of its items."""
+    __slots__ = ('h',)
+
+    def __init__(self, *a):
+        dict.__init__(self, *a)
+        if a and isinstance(a[0], Cells):
+            self.h = a[0].h
+        else:
+            h = 0
+            for kv in dict.items(self):
+                h ^= hash(kv)
+            self.h = h
+
+    def __setitem__(self, k, v):
+        old = dict.get(self, k)
+        if old is not None:
+            self.h ^= hash((k, old))
+        self.h ^= hash((k, v))
+        dict.__setitem__(self, k, v)
+
+    def __delitem__(self, k):
+        self.h ^= hash((k, dict.__getitem__(self, k)))
+        dict.__delitem__(self, k)
+
+    def pop(self, k, *d):
+        if k in self:
+            v = dict.__getitem__(self, k)
+            self.h ^= hash((k, v))
+            dict.__delitem__(self, k)
+            return v
+        if d:
+            return d[0]
+        raise KeyError(k)
+
+    def clear(self):
+        dict.clear(self)
+        self.h = 0
+
+    def update(self, *a, **k):
+        for kk, v in dict(*a, **k).items():
+            self[kk] = v
+
+    def setdefault(self, k, d=None):
+        if k not in self:
+            self[k] = d
+        return dict.__getitem__(self, k)
+
+    def __reduce__(self):
+        return (Cells, (dict(self),))
+
+
 class Obj(object):
     __slots__ = ('id', 'kind', 'size', 'cells', 'default', 'live', 'heap', 'weak', 'site', 'ro', 'zeroed_n',
                  'ptr_fields', 'name')
@@ -16,7 +68,7 @@ class Obj(object):
         self.id = oid
         self.kind = kind          # local param global heap input str ext
         self.size = size          # term
-        self.cells = {}           # (symkey, const_off) -> (width, term)
+        self.cells = Cells()      # (symkey, const_off) -> (width, term)
         self.default = default    # uninit zero sym unknown
         self.live = True
         self.heap = heap
@@ -30,7 +82,7 @@ class Obj(object):
     def copy(self):
         o = Obj.__new__(Obj)
         o.id, o.kind, o.size, o.default = self.id, self.kind, self.size, self.default
-        o.cells = dict(self.cells)
+        o.cells = Cells(self.cells)
         o.live, o.heap, o.weak, o.site, o.ro = self.live, self.heap, self.weak, self.site, self.ro
         o.zeroed_n = self.zeroed_n
         o.ptr_fields = self.ptr_fields
@@ -75,6 +127,8 @@ class State(object):
         s.tags = dict(self.tags)
         s.path = self.path
         s._cc = None
+        s._dc = None
+        s._cm = None
         return s
 
     # ---- fresh names
@@ -130,6 +184,32 @@ class State(object):
         self._cc = None
 
     def _canon(self, t):
+        memo = self._cm
+        if memo is None:
+            self._cm = {}
+            try:
+                return self._canon1(t)
+            finally:
+                self._cm = None
+        return self._canon1(t)
+
+    _cm = None
+
+    def _canon1(self, t):
+        k0 = t[0]
+        if k0 == 'c':
+            return t
+        memo = self._cm
+        if memo is not None:
+            r0 = memo.get(t)
+            if r0 is not None:
+                return r0
+        res = self._canon2(t)
+        if memo is not None:
+            memo[t] = res
+        return res
+
+    def _canon2(self, t):
         r = self.eq.get(t)
         seen = 0
         while r is not None and r != t and seen < 50:
@@ -140,34 +220,34 @@ class State(object):
         if k in ('c', 'in', 'sym', 'uninit', 'fn'):
             return t
         if k == 'cat':
-            bs = tuple(self._canon(b) for b in t[1])
+            bs = tuple(self._canon1(b) for b in t[1])
             n = mk_cat(bs)
             return self.eq.get(n, n)
         if k == 'ptr':
-            return ('ptr', t[1], self._canon(t[2]))
+            return ('ptr', t[1], self._canon1(t[2]))
         if k == 'pset':
-            return ('pset', t[1], tuple(self._canon(x) for x in t[2]))
+            return ('pset', t[1], tuple(self._canon1(x) for x in t[2]))
         if k == 'sel':
-            d = self._dom(self._canon(t[1]), 0)
+            d = self._dom(self._canon1(t[1]), 0)
             if d.const() == 0:
-                return self._canon(t[2])
+                return self._canon1(t[2])
             if not d.contains(0):
-                return self._canon(t[3])
-            return ('sel', t[1], self._canon(t[2]), self._canon(t[3]))
+                return self._canon1(t[3])
+            return ('sel', t[1], self._canon1(t[2]), self._canon1(t[3]))
         if k == 'selw':
-            d = self._dom(self._canon(t[1]), 0)
+            d = self._dom(self._canon1(t[1]), 0)
             if d.lo > t[2]:
-                return self._canon(t[3])
+                return self._canon1(t[3])
             if d.hi <= t[2]:
-                return self._canon(t[4])
-            return ('selw', t[1], t[2], self._canon(t[3]), self._canon(t[4]) if t[4] != ('uninit',) else t[4])
+                return self._canon1(t[4])
+            return ('selw', t[1], t[2], self._canon1(t[3]), self._canon1(t[4]) if t[4] != ('uninit',) else t[4])
         if k == 'blob':
-            return ('blob', tuple(self._canon(x) for x in t[1]))
+            return ('blob', tuple(self._canon1(x) for x in t[1]))
         out = [k]
         ch = False
         for x in t[1:]:
             if isinstance(x, tuple):
-                y = self._canon(x)
+                y = self._canon1(x)
                 ch = ch or (y is not x and y != x)
                 out.append(y)
             else:
@@ -272,7 +352,13 @@ class State(object):
     # ---- ranges
     def dom(self, t):
         t = self._canon(t)
-        return self._dom(t, 0)
+        self._dc = {}
+        try:
+            return self._dom(t, 0)
+        finally:
+            self._dc = None
+
+    _dc = None
 
     def _dom(self, t, depth):
         k = t[0]
@@ -286,8 +372,18 @@ class State(object):
             return d.meet(e) if e is not None else d
         if depth > 12:
             return e if e is not None else TOP
+        # shared sub-terms (byte lanes of one wrapped value) are evaluated once per query
+        dc = self._dc
+        if dc is not None:
+            r = dc.get(t)
+            if r is not None:
+                return r
         d = self._dom_struct(t, depth)
-        return d.meet(e) if e is not None else d
+        if e is not None:
+            d = d.meet(e)
+        if dc is not None:
+            dc[t] = d
+        return d
 
     def _dom_struct(self, t, depth):
         k = t[0]
@@ -576,6 +672,21 @@ class State(object):
                 n += 1
         return (self.trace, self.stack, n, tuple(len(f) for f in self.frames), len(self.tags))
 
+    def raw_hash(self):
+        """Cheap hash of the raw memory (collisions are resolved by raw_equal)."""
+        h = 0
+        for oid, o in self.objs.items():
+            if o.kind == 'str' or (o.kind == 'global' and (o.ro or (not o.cells and o.default == 'unknown'))):
+                continue
+            h ^= hash((oid, o.live, o.default, o.cells.h, len(o.cells)))
+        return h
+
+    def raw_equal(self, o):
+        if self.trace != o.trace or self.stack != o.stack or self.tags != o.tags or self.frames != o.frames:
+            return False
+        d = self.diff_objects(o)
+        return d is not None and not d
+
     def rewrite_canon(self):
         """Replace every cell by its canonical form (needed before equalities are joined away)."""
         for o in self.objs.values():
@@ -585,7 +696,9 @@ class State(object):
                     if c is not t:
                         o.cells[k] = (w, c)
 
-    def mem_sig(self, raw=False, canon_state=None):
+    def mem_sig(self, raw=False, canon_state=None, bytewise=None):
+        """Signature of memory.  raw: terms as stored.  Otherwise canonical terms; objects listed in
+        `bytewise` (or all, if None) are expanded per byte so that cell granularity does not matter."""
         items = []
         canon = (lambda t: t) if raw else (canon_state or self).canon
         for oid, o in self.objs.items():
@@ -593,8 +706,9 @@ class State(object):
                 continue
             if raw:
                 cs = frozenset((k, w, t) for k, (w, t) in o.cells.items())
+            elif bytewise is not None and oid not in bytewise:
+                cs = frozenset((k, w, t if t[0] == 'c' else canon(t)) for k, (w, t) in o.cells.items())
             else:
-                # granularity-independent: one entry per byte of the canonical value
                 ent = []
                 for k, (w, t) in o.cells.items():
                     ct = t if t[0] == 'c' else canon(t)
@@ -607,6 +721,24 @@ class State(object):
             items.append((oid, o.live, o.default, o.zeroed_n, cs))
         fr = tuple(frozenset(f.items()) for f in self.frames)
         return (frozenset(items), fr, self.trace, self.stack, frozenset(self.tags.items()))
+
+    def diff_objects(self, o):
+        """Object ids whose raw cells / status differ between self and o (None if object sets differ)."""
+        out = []
+        for oid, a in self.objs.items():
+            if a.kind == 'str' or a.kind == 'global':
+                continue
+            b = o.objs.get(oid)
+            if b is None:
+                return None
+            if a.live != b.live or a.default != b.default or a.zeroed_n != b.zeroed_n:
+                return None
+            if a.cells != b.cells:
+                out.append(oid)
+        for oid, b in o.objs.items():
+            if b.kind not in ('str', 'global') and oid not in self.objs:
+                return None
+        return out
 
     def join_knowledge(self, o):
         """Keep only knowledge common to both states (memory is identical)."""
